@@ -127,8 +127,10 @@ func (p *c12Prog) checkBufferClosed(b *bigbuff.Buffer, conss []bigbuff.Consumer,
 		})
 	}
 	if before != nil {
+		// Close leaves the contents readable; the cleaner may still have evicted a consumed prefix meanwhile (cooldown),
+		// so what remains must be a suffix of what was there
 		after := b.Slice()
-		if fmt.Sprint(after) != fmt.Sprint(before) {
+		if len(after) > len(before) || fmt.Sprint(after) != fmt.Sprint(before[len(before)-len(after):]) {
 			p.problem("slice-changed-by-close", "Slice() was %v before Close and %v after", before, after)
 		}
 	}
